@@ -11,7 +11,7 @@
    fill_all: the seed of room i is its least cell, seeds increase with i.                       *)
 From Coq Require Import ZArith List Ascii Bool NArith Lia Sorting.Permutation Sorting.Sorted.
 From Cspuz Require Import Lib.PyErr Codec.Comb Codec.CombWf Codec.CombBasics Codec.RoomsGrid Codec.RoomsFill Codec.RoomsProofs
-  Codec.TotalModel Codec.TotalLeaf Codec.TotalDims Codec.TotalReenc Codec.TotalRooms.
+  Codec.TotalModel Codec.TotalLeaf Codec.TotalDims Codec.TotalReencModel Codec.TotalReenc Codec.TotalRooms.
 Import ListNotations.
 Local Open Scope Z_scope.
 
